@@ -196,6 +196,38 @@ class ManifestMachine(FormatMachine):
     def add_key(self, op, payload):
         return [len(payload)]
 
+    def op_model_add(self, op):
+        """The entry is added to the reference model ONLY (the documented effect of the call), not through productmd:
+        used to put a document on disk whose content does not depend on the add code under test."""
+        s = self.slot(op)
+        if s is None or s.tainted:
+            return "noop"
+        try:
+            kind, arg = self.expect_add(copy.deepcopy(s.model["payload"]), op)
+        except KeyError:
+            return "noop-grey"
+        if kind != "ok":
+            return "noop-" + str(kind)
+        s.model["payload"] = arg
+        s.model_only = True
+        return "ok"
+
+    def op_model_dump(self, op):
+        """An independent writer (the harness) stores the model as a current-format document."""
+        s = self.slot(op)
+        if s is None or s.tainted or compose_validity(s.model["compose"])[0] != VALID:
+            return "noop"
+        path = self.path(op)
+        doc = {"header": {"type": self.HEADER_TYPE, "version": self.CURRENT_VERSION},
+               "payload": {"compose": dict((k, v) for k, v in norm_compose(s.model["compose"]).items()
+                                           if not (k in ("label", "final") and not s.model["compose"].get("label"))),
+                           self.ATTR: copy.deepcopy(s.model["payload"])}}
+        text = json.dumps(doc, indent=4, sort_keys=True, separators=(",", ": "))
+        self.fs.put(path, text)
+        self.durable[path] = {"expected": self.expected_loaded(s), "bytes": self.fs.get(path), "clean": True, "kw": {}, "lossy": True}
+        CTX.probe("mf.document_written_by_independent_writer")
+        return "ok"
+
     def op_dump(self, op):
         s = self.slot(op)
         r = FormatMachine.op_dump(self, op)
